@@ -57,10 +57,10 @@ type Outcome struct {
 // Property is a check driven by the outer property-based tester.
 type Property interface {
 	ID() string
-	Cases(c *Ctx) int              // driver cases for this shard
-	Gen(dt *drv.T, c *Ctx) any     // generate a case (JSON-serialisable)
-	NewCase() any                  // pointer to an empty case, for replay
-	Run(c *Ctx, cs any) Outcome    // run the oracle on one case
+	Cases(c *Ctx) int           // driver cases for this shard
+	Gen(dt *drv.T, c *Ctx) any  // generate a case (JSON-serialisable)
+	NewCase() any               // pointer to an empty case, for replay
+	Run(c *Ctx, cs any) Outcome // run the oracle on one case
 }
 
 // Looper is implemented by checks that own their loop (enumerations, statistics, fault injection).
